@@ -2,7 +2,7 @@ CONSTANTS p = 13
  nq = 2
  qnr2 = 0
  big = FALSE
- phases = {"quad", "sextic", "dodecic"}
+ phases = {"quad", "sextic"}
 SPECIFICATION Spec
 INVARIANT Check
 CHECK_DEADLOCK FALSE
